@@ -65,6 +65,12 @@ class Failure:
                 if isprim:
                     self.in_spec_module = True
                 continue
+            # "at the end of the function body" / "at this exit" / "at this call site" spans say WHERE the obligation
+            # arose, not WHICH clause failed; they may cover a whole body and must not contribute clause tags
+            if label and str(label).startswith("at "):
+                continue
+            if lb - la > 12 and len(self.spans) > 1:
+                continue
             for ln in range(la, lb + 1):
                 key = (rel, ln)
                 if key in line_tags:
